@@ -4,7 +4,13 @@
 // cooperative scheduler sees every lock acquisition and every pool Get/Put.
 package vsync
 
-import "sync"
+import (
+	"fmt"
+	"reflect"
+	"runtime"
+	"strings"
+	"sync"
+)
 
 // Hooks is implemented by the harness.
 type Hooks interface {
@@ -108,6 +114,69 @@ func (m *RWMutex) RLocker() Locker { return (*rlocker)(m) }
 type Pool struct {
 	New  func() interface{}
 	real sync.Pool
+
+	tmu sync.Mutex
+	in  map[interface{}]bool // pointers currently sitting in the pool (Track only)
+}
+
+// Track makes every Pool remember which pointers it currently holds; putting a pointer that is
+// already in the pool (so that two later Gets hand the same object to two users) is logged.
+var Track bool
+
+var (
+	dpMu  sync.Mutex
+	dpLog []string
+)
+
+// TakeDoublePuts returns and clears the log of objects put into a pool they were already in.
+func TakeDoublePuts() []string {
+	dpMu.Lock()
+	defer dpMu.Unlock()
+	out := dpLog
+	dpLog = nil
+	return out
+}
+
+func (p *Pool) trackPut(x interface{}) {
+	if !Track || x == nil || reflect.TypeOf(x).Kind() != reflect.Ptr {
+		return
+	}
+	p.tmu.Lock()
+	dup := p.in[x]
+	if p.in == nil {
+		p.in = map[interface{}]bool{}
+	}
+	p.in[x] = true
+	p.tmu.Unlock()
+	if dup {
+		var fr []string
+		pcs := make([]uintptr, 12)
+		n := runtime.Callers(3, pcs)
+		frames := runtime.CallersFrames(pcs[:n])
+		for {
+			f, more := frames.Next()
+			if i := strings.Index(f.Function, "netflix/rend/"); i >= 0 && !strings.Contains(f.Function, "verifshim") {
+				fr = append(fr, f.Function[i+len("netflix/rend/"):])
+			}
+			if !more {
+				break
+			}
+		}
+		dpMu.Lock()
+		if len(dpLog) < 64 {
+			dpLog = append(dpLog, fmt.Sprintf("%T put by %s", x, strings.Join(fr, " < ")))
+		}
+		dpMu.Unlock()
+	}
+}
+
+func (p *Pool) trackGet(x interface{}) interface{} {
+	if Track && x != nil && reflect.TypeOf(x).Kind() == reflect.Ptr {
+		p.tmu.Lock()
+		delete(p.in, x)
+		p.tmu.Unlock()
+	}
+	return x
 }
 
 func (p *Pool) Get() interface{} {
@@ -116,11 +185,11 @@ func (p *Pool) Get() interface{} {
 			if x == nil && p.New != nil {
 				return p.New()
 			}
-			return x
+			return p.trackGet(x)
 		}
 	}
 	if x := p.real.Get(); x != nil {
-		return x
+		return p.trackGet(x)
 	}
 	if p.New != nil {
 		return p.New()
@@ -129,6 +198,7 @@ func (p *Pool) Get() interface{} {
 }
 
 func (p *Pool) Put(x interface{}) {
+	p.trackPut(x)
 	if h := H; h != nil {
 		if h.PoolPut(p, x) {
 			return
